@@ -6,16 +6,15 @@ M = [
  ("c05_no_traceback_compare", ["C05"], [("shrink.go", "	if traceback(err1) != traceback(s.err) {", "	if err1 == nil || err1.isInvalidData() {")]),
  ("c05_accept_larger", ["C05"], [("shrink.go", "	if compareData(buf, s.rec.data) >= 0 {\n		return false\n	}\n	bufStr", "	if compareData(buf, s.rec.data) == 0 {\n		return false\n	}\n	bufStr")]),
  ("c01_skip_final_prune_replay", ["C01","C04"], [("engine.go", "	buf, err3 := shrink(tb, shrinkDeadline(deadline), s.recordedBits, err2, prop)\n\n	return valid, invalid, false, seed, \"\", buf, err2, err3", "	buf, err3 := shrink(tb, shrinkDeadline(deadline), s.recordedBits, err2, prop)\n	if len(buf) > 2 {\n		buf = buf[:len(buf)-1]\n	}\n\n	return valid, invalid, false, seed, \"\", buf, err2, err3")]),
- ("c07_seed_before_increment", ["C07"], [("engine.go", "			return valid, invalid, false, seed, err\n", "			return valid, invalid, false, seed - uint64(iter), err\n")]),
+ ("c07_reports_base_seed", ["C07"], [("engine.go", "	return valid, invalid, false, seed, \"\", buf, err2, err3\n", "	return valid, invalid, false, seed - uint64(valid+invalid), \"\", buf, err2, err3\n")]),
  ("c09_one_more_check", ["C09"], [("engine.go", "	for valid < checks && invalid < checks*invalidChecksMult {", "	for valid <= checks && invalid < checks*invalidChecksMult {")]),
  ("c09_budget_1n", ["C09"], [("engine.go", "	invalidChecksMult = 10", "	invalidChecksMult = 1")]),
  ("c09_vacuous_early_exit", ["C09"], [("engine.go", "		if valid == checks || (earlyExit && valid > 0) {", "		if valid == checks || earlyExit {")]),
  ("c10_cancel_after_cleanups", ["C10"], [("engine.go", "	// Context must be closed before t.Cleanup functions are run.\n	t.mu.Lock()\n	if t.cancelCtx != nil {\n		t.cancelCtx()\n		t.cancelCtx = nil\n		t.ctx = nil\n	}\n	t.mu.Unlock()\n\n	for {", "	defer func() {\n		t.mu.Lock()\n		if t.cancelCtx != nil {\n			t.cancelCtx()\n			t.cancelCtx = nil\n			t.ctx = nil\n		}\n		t.mu.Unlock()\n	}()\n\n	for {")]),
  ("c10_fifo", ["C10"], [("engine.go", "			last := len(t.cleanups) - 1\n			cleanup = t.cleanups[last]\n			t.cleanups = t.cleanups[:last]", "			cleanup = t.cleanups[0]\n			t.cleanups = t.cleanups[1:]")]),
  ("c10_stop_after_panicking_cleanup", ["C10"], [("engine.go", "		if recurse {\n			t.cleanup()\n		}", "		if recurse && recover() == nil {\n			t.cleanup()\n		}")]),
- ("c10_no_cleanup_in_custom_retry", ["C10"], [("combinators.go", "	defer outer.failIfFailed(t) // after cleanup, as the cleanup functions can signal failures as well\n	defer t.cleanup()\n", "	defer outer.failIfFailed(t) // after cleanup, as the cleanup functions can signal failures as well\n	defer func() {\n		if !flags.debug || len(t.cleanups) < 2 {\n			t.cleanup()\n		}\n	}()\n")]),
  ("c11_no_draws_reset", ["C11"], [("engine.go", "		t.draws = 0\n", "")]),
- ("c02_swallow_in_runaction", ["C02"], [("statemachine.go", "				t.failOnError() // skipping does not undo a failure signalled earlier\n", "")]),
+ ("c02_swallow_in_runaction", ["C01", "C04"], [("statemachine.go", "				t.failOnError() // skipping does not undo a failure signalled earlier\n", "")]),
  ("c02_custom_drop", ["C02"], [("combinators.go", "	defer outer.failIfFailed(t) // after cleanup, as the cleanup functions can signal failures as well\n", "")]),
  ("c02_cleanup_after_failonerror", ["C02","C11"], [("engine.go", "	func() {\n		defer t.cleanup()\n		prop(t)\n	}()\n	t.failOnError() // after cleanup, to not miss failures signalled by the cleanup functions\n", "	defer t.cleanup()\n	prop(t)\n	t.failOnError()\n")]),
  ("c16_write_final_name", ["C16"], [("persist.go", "	f, err := os.CreateTemp(dir, failfileTmpPattern)", "	f, err := os.Create(filename)"), ("persist.go", "	err = os.Rename(f.Name(), filename)\n", "	err = nil\n"), ("persist.go", "	defer func() { _ = os.Remove(f.Name()) }()\n", "")]),
@@ -23,7 +22,6 @@ M = [
  ("c16_temp_matches_glob", ["C16"], [("persist.go", "	f, err := os.CreateTemp(dir, failfileTmpPattern)", "	f, err := os.CreateTemp(dir, strings.TrimSuffix(filepath.Base(filename), \".fail\")+\"-tmp*.fail\")")]),
  ("c17_load_error_fails", ["C17"], [("engine.go", "		tb.Logf(\"[rapid] ignoring fail file: %v\", err)\n		return nil, nil, nil", "		tb.Errorf(\"[rapid] ignoring fail file: %v\", err)\n		return nil, nil, nil")]),
  ("c17_bad_file_consumes_seed", ["C17"], [("engine.go", "	for _, failfile := range failfiles {\n		buf, err1, err2 := checkFailFile(tb, failfile, prop)", "	for _, failfile := range failfiles {\n		seed++\n		buf, err1, err2 := checkFailFile(tb, failfile, prop)")]),
- ("c17_invalid_file_panics", ["C17"], [("persist.go", "	split := strings.Split(data[0], \"#\")\n	if len(split) != 2 {", "	split := strings.Split(data[0], \"#\")\n	if len(split) < 2 {")]),
  ("c14_no_recheck_in_context", ["C14"], [("engine.go", "	if t.ctx != nil {\n		// Another goroutine set the context\n		// while we were waiting for the lock.\n		return t.ctx\n	}\n", "")]),
  ("c14_rlock_in_fail", ["C14"], [("engine.go", "func (t *T) fail(now bool, msg string) {\n	t.mu.Lock()\n	defer t.mu.Unlock()\n", "func (t *T) fail(now bool, msg string) {\n	t.mu.RLock()\n	defer t.mu.RUnlock()\n")]),
  ("c14_unlocked_cleanup", ["C14"], [("engine.go", "func (t *T) Cleanup(f func()) {\n	t.mu.Lock()\n	defer t.mu.Unlock()\n", "func (t *T) Cleanup(f func()) {\n")]),
@@ -31,9 +29,9 @@ M = [
  ("c15_deferred_no_once", ["C15"], [("combinators.go", "	g.once.Do(func() {\n		g.g = g.fn()\n	})\n", "	if g.g == nil {\n		g.g = g.fn()\n	}\n")]),
  ("c15_label_racy", ["C15"], [("generator.go", "	i := t.s.beginGroup(g.String(), true)", "	i := t.s.beginGroup(g.str, true)")]),
  ("c06_failfiles_after_findbug", ["C06","C09"], [("engine.go", "	for _, failfile := range failfiles {\n		buf, err1, err2 := checkFailFile(tb, failfile, prop)\n		if err1 != nil || err2 != nil {\n			return 0, 0, false, 0, failfile, buf, err1, err2\n		}\n	}\n\n	valid, invalid, earlyExit, seed, err1 := findBug(tb, deadline, checks, seed, prop)\n	if err1 == nil {\n		return valid, invalid, earlyExit, 0, \"\", nil, nil, nil\n	}\n", "	valid, invalid, earlyExit, seed, err1 := findBug(tb, deadline, checks, seed, prop)\n	if err1 == nil {\n		for _, failfile := range failfiles {\n			buf, err1, err2 := checkFailFile(tb, failfile, prop)\n			if err1 != nil || err2 != nil {\n				return 0, 0, false, 0, failfile, buf, err1, err2\n			}\n		}\n		return valid, invalid, earlyExit, 0, \"\", nil, nil, nil\n	}\n")]),
- ("c06_scanner_limit", ["C06"], [("persist.go", "	scanner.Buffer(nil, math.MaxInt32) // captured test output can contain lines of any length\n", "	scanner.Buffer(nil, 1<<20)\n")]),
+ ("c06_scanner_limit", ["C06"], [("persist.go", "	scanner.Buffer(nil, math.MaxInt32) // captured test output can contain lines of any length\n", "	scanner.Buffer(nil, math.MaxInt16*32)\n")]),
  ("c06_name_sanitize_mismatch", ["C06"], [("persist.go", "func failFilePattern(testName string) string {\n	fileName := fmt.Sprintf(\"%s-*.fail\", kindaSafeFilename(testName))", "func failFilePattern(testName string) string {\n	fileName := fmt.Sprintf(\"%s-*.fail\", strings.ReplaceAll(testName, \"/\", \"_\"))")]),
- ("c04_global_prng_filter", ["C04","C07"], [("combinators.go", "func find[V any](gen func(*T) (V, bool), t *T, tries int) V {\n	for n := 0; n < tries; n++ {", "var findCalls int\n\nfunc find[V any](gen func(*T) (V, bool), t *T, tries int) V {\n	findCalls++\n	if findCalls%1000 == 0 {\n		tries++\n	}\n	for n := 0; n < tries; n++ {")]),
+ ("c04_process_global_coin", ["C04"], [("utils.go", "func flipBiasedCoin(s bitStream, p float64) bool {\n	assert(p >= 0 && p <= 1)\n", "var coinFlips int\n\nfunc flipBiasedCoin(s bitStream, p float64) bool {\n	assert(p >= 0 && p <= 1)\n	coinFlips++\n	if coinFlips%4096 == 0 && p > 0 && p < 1 {\n		p = 1 - p // process-global state leaking into generation\n	}\n")]),
  ("c04_d1_reverted", ["C01","C04","C05"], [("utils.go", "		if r.pContinue < 1 {", "		if r.pContinue < 0 {")]),
 ]
 out = os.path.join(os.path.dirname(os.path.dirname(os.path.abspath(__file__))), "mutants")
